@@ -1264,7 +1264,7 @@ func ruleTAB6(w *World) []Ob {
 			case "grower":
 				g := byAtom(cs, "(encode(cfg)==0)")
 				wantReal := "newGrower(lastNodeFormat(cfg),intermedialNodeFormat(cfg),dryrun(cfg))"
-				if len(g["true"]) == 1 && g["true"][0] == wantReal {
+				if len(g["true"]) >= 1 && allCallsStartWith(g["true"], wantReal) {
 					l.ok(p.FuncID(ctor), "grower factory: the real grower gets formats and dry-run flag", p.InstrPos(st), wantReal+" for the default encoding", true, "factory")
 				} else {
 					l.bad(p.FuncID(ctor), "grower factory: the real grower gets formats and dry-run flag", p.InstrPos(st), fmt.Sprintf("for the default encoding the grower is %v (other cases %v), expected %s: branch strings or the dry-run validation flag do not reach the grower", g["true"], g["*"], wantReal), "factory")
@@ -1276,8 +1276,8 @@ func ruleTAB6(w *World) []Ob {
 				}
 			case "spreader":
 				g := byAtom(cs, "dryrun(cfg)")
-				okT := len(g["true"]) == 1 && g["true"][0] == "newColorizeSpreader(fileExtensions(cfg))"
-				okF := len(g["false"]) == 1 && g["false"][0] == "newSpreader(encode(cfg))"
+				okT := len(g["true"]) >= 1 && allCallsStartWith(g["true"], "newColorizeSpreader(fileExtensions(cfg))")
+				okF := len(g["false"]) >= 1 && allCallsStartWith(g["false"], "newSpreader(encode(cfg))")
 				if okT && okF && len(g["*"]) == 0 {
 					l.ok(p.FuncID(ctor), "spreader factory: dry-run ⇒ colourising spreader", p.InstrPos(st), "dryrun → newColorizeSpreader*(fileExtensions); otherwise newSpreader*(encode)", true, "factory")
 				} else {
@@ -1357,10 +1357,11 @@ func ruleTAB6(w *World) []Ob {
 			if !isC || c.Common().StaticCallee() == nil || fname(c.Common().StaticCallee()) != "newGrowerSimple" {
 				return
 			}
-			if len(c.Common().Args) == 3 && sameVar(c.Common().Args[0], fn.Params[0]) && sameVar(c.Common().Args[1], fn.Params[1]) {
+			// further parameters (new options) may follow the three the rule is about
+			if len(c.Common().Args) >= 3 && len(fn.Params) >= 3 && sameVar(c.Common().Args[0], fn.Params[0]) && sameVar(c.Common().Args[1], fn.Params[1]) {
 				okFmt = true
 			}
-			if len(c.Common().Args) == 3 && sameVar(c.Common().Args[2], fn.Params[2]) {
+			if len(c.Common().Args) >= 3 && len(fn.Params) >= 3 && sameVar(c.Common().Args[2], fn.Params[2]) {
 				okFlag = true
 			}
 		})
@@ -1423,6 +1424,18 @@ func tab6Encoders(w *World, l *obs) {
 			what := ""
 			if call, ok := stripConv(rr(r)[0]).(*ssa.Call); ok && call.Common().StaticCallee() != nil {
 				what = encoderPackageOf(p, call.Common().StaticCallee())
+				if what == "" {
+					// the constructor is handed its codec: look into the calls that build the arguments
+					set := map[string]bool{}
+					for _, a := range call.Common().Args {
+						if ac, ok := stripConv(a).(*ssa.Call); ok && ac.Common().StaticCallee() != nil && p.InModule(ac.Common().StaticCallee()) {
+							if pk := encoderPackageOf(p, ac.Common().StaticCallee()); pk != "" {
+								set[pk] = true
+							}
+						}
+					}
+					what = strings.Join(sortedKeys(set), "+")
+				}
 			} else {
 				what = "default:" + describeValue(stripConv(rr(r)[0]))
 			}
@@ -1476,6 +1489,20 @@ func encoderPackageOf(p *Prog, ctor *ssa.Function) string {
 		}
 	}
 	visit(ctor)
+	if pkg == "" {
+		// the constructor builds its encode factory through module helpers: every NewEncoder reachable from it
+		set := map[string]bool{}
+		for f := range reachableFrom(p, []*ssa.Function{ctor}, nil) {
+			allInstrs(f, func(in ssa.Instruction) {
+				if c, ok := in.(ssa.CallInstruction); ok {
+					if callee := c.Common().StaticCallee(); callee != nil && fname(callee) == "NewEncoder" && !p.InModule(callee) {
+						set[pkgOfFunc(callee).Pkg.Path()] = true
+					}
+				}
+			})
+		}
+		pkg = strings.Join(sortedKeys(set), "+")
+	}
 	return pkg
 }
 
@@ -2034,4 +2061,26 @@ func mapperGetsParseResult(parse, he *ssa.Call) bool {
 		}
 	}
 	return rowOK && errOK
+}
+
+// callStartsWith: got is the call want, possibly with further arguments after want's (a constructor that gained a
+// parameter for a new option still receives what the rule is about, in the same positions).
+func callStartsWith(got, want string) bool {
+	if got == want {
+		return true
+	}
+	if !strings.HasSuffix(want, ")") {
+		return false
+	}
+	pre := want[:len(want)-1]
+	return strings.HasPrefix(got, pre+",") && strings.HasSuffix(got, ")")
+}
+
+func allCallsStartWith(got []string, want string) bool {
+	for _, g := range got {
+		if !callStartsWith(g, want) {
+			return false
+		}
+	}
+	return len(got) > 0
 }
